@@ -110,6 +110,11 @@ KVs.declare('knil')
 KVs.declare('kcons', ('kk', PyV), ('kv', PyV), ('krest', KVs))
 PyV, PyVs, KVs = z3.CreateDatatypes(PyV, PyVs, KVs)
 
+# dictionary keys built from hashable forms: Python looks keys up by ==/hash, so two PyV terms that
+# are == (1, 1.0, True) must select the same slot; hkey maps a hashable PyV to its slot
+HKeyS = z3.DeclareSort('HKey')
+hkey = z3.Function('hkey', PyV, HKeyS)
+
 # ---------------------------------------------------------------------------------------------
 # option sorts (Python "x or None")
 
@@ -126,6 +131,18 @@ def OptSort(sort):
     d = d.create()
     _opt_cache[key] = d
     return d
+
+
+_tup_cache = {}
+
+
+def TupSort(sorts):
+    key = '_'.join(''.join(ch if ch.isalnum() else '_' for ch in str(x)) for x in sorts)
+    if key not in _tup_cache:
+        d = z3.Datatype('Tup_' + key)
+        d.declare('mk', *[('t%d' % i, x) for i, x in enumerate(sorts)])
+        _tup_cache[key] = d.create()
+    return _tup_cache[key]
 
 
 # ---------------------------------------------------------------------------------------------
@@ -171,10 +188,14 @@ class Ty:
                 s = ObjS
             elif k == 'pyv':
                 s = PyV
+            elif k == 'hkey':
+                s = HKeyS
             elif k == 'pyvs':
                 s = PyVs
             elif k == 'kvs':
                 s = KVs
+            elif k == 'bytes':
+                s = IntS          # a bytes object is represented by its length
             elif k == 'kind':
                 s = KindS
             elif k == 'exccls':
@@ -187,6 +208,8 @@ class Ty:
                 s = z3.SeqSort(self.args[0].sort())
             elif k == 'opt':
                 s = OptSort(self.args[0].sort())
+            elif k == 'tup':
+                s = TupSort([a.sort() for a in self.args])
             else:
                 raise ValueError('no sort for ' + k)
             self._sort = s
@@ -198,6 +221,7 @@ BOOL = Ty('bool')
 REAL = Ty('real')
 STR = Ty('str')
 PYV = Ty('pyv')
+HKEY = Ty('hkey')
 PYVS = Ty('pyvs')
 KVS = Ty('kvs')
 KIND = Ty('kind')
@@ -222,6 +246,10 @@ def LIST(t):
 
 def OPT(t):
     return Ty('opt', t)
+
+
+def TUP(*ts):
+    return Ty('tup', *ts)
 
 
 # ---------------------------------------------------------------------------------------------
